@@ -29,6 +29,7 @@ enum RK {
   R_B, R_BL, R_BCOND, R_CBZ, R_TBZ, R_ADR, R_LDR_LIT,
   // data
   D_EMBED_LABEL, D_DELTA,
+  X_XBEGIN,         // x86: xbegin rel32 (C7 F8 rel32) - the only relative branch with a ModRM byte, one byte longer than jmp/call rel32
   // absolute (C04)
   X_ABS_MEM,        // x86: mov eax, [abs]   (32-bit: disp32; 64-bit: abs addressing or rip-relative chosen by AsmJit)
   X_ABS_JMP, X_ABS_CALL,    // jmp/call imm64 absolute target (rel32 or address table)
@@ -109,6 +110,7 @@ static XDec xdecode(RK kind, const uint8_t* p, size_t n, int mode) {
     case X_JCC: case X_JCC_SHORT:
       if ((op & 0xF0) == 0x70) rel(1, "jcc rel8"); else if (op == 0x0F && i < n && (p[i] & 0xF0) == 0x80) { i++; rel(4, "jcc rel32"); }
       break;
+    case X_XBEGIN: if (op == 0xC7 && i < n && p[i] == 0xF8) { i++; rel(4, "xbegin rel32"); } break;
     case X_JECXZ: if (op == 0xE3) rel(1, "jecxz rel8"); break;
     case X_LOOP: if (op == 0xE2) rel(1, "loop rel8"); break;
     case X_LEA: case X_MEM_IMM8: case X_MEM_IMM32: case X_ABS_MEM: case X_ABS_MEM_IMM8: case X_ABS_MEM_IMM32: {
@@ -155,7 +157,7 @@ static ADec adecode(RK kind, uint32_t w) {
 
 static const char* rk_name(RK k) {
   static const char* n[] = {"jmp", "jmp short", "jcc", "jcc short", "call", "jecxz", "loop", "lea", "mem+imm8", "mem+imm32", "b", "bl", "b.cond", "cbz", "tbz", "adr", "ldr-literal",
-                            "embed_label", "embed_label_delta", "abs-mem", "abs-jmp", "abs-call", "movabs", "abs-b", "abs-bl", "abs-mem+imm8", "abs-mem+imm32"};
+                            "embed_label", "embed_label_delta", "xbegin", "abs-mem", "abs-jmp", "abs-call", "movabs", "abs-b", "abs-bl", "abs-mem+imm8", "abs-mem+imm32"};
   return n[int(k)];
 }
 
@@ -240,6 +242,8 @@ void vh_run(const vh::Case& c, vh::Ctx& ctx) {
         // bound label must still be relative to the END of the whole instruction: 67h (jecxz/loop with the other counter width),
         // REX (rex().jmp/call in 64-bit mode), 3E/2E branch hints (taken()/not_taken() with EncodingOptions::kPredictedJumps)
         bool prefixed = (uint64_t(arg(4)) % 4) == 3;
+        // xbegin takes the place of a third of the calls (selected by arg 4 so that stored cases of the other kinds keep their meaning)
+        if (r.kind == X_CALL && (uint64_t(arg(4)) % 4) == 2) r.kind = X_XBEGIN;
         if (prefixed && (r.kind == X_JCC || r.kind == X_JCC_SHORT)) xa.add_encoding_options(EncodingOptions::kPredictedJumps);
         if (prefixed) ctx.cls("x86_branch_with_prefix_byte");
         switch (r.kind) {
@@ -249,6 +253,7 @@ void vh_run(const vh::Case& c, vh::Ctx& ctx) {
           case X_JCC: r.addend = 0; e = prefixed ? xa.taken().jnz(L) : xa.jnz(L); break;
           case X_JCC_SHORT: r.addend = 0; e = prefixed ? xa.not_taken().short_().jb(L) : xa.short_().jb(L); break;
           case X_CALL: r.addend = 0; e = (prefixed && mode == 64) ? xa.rex().call(L) : xa.call(L); break;
+          case X_XBEGIN: r.addend = 0; ctx.cls("x86_xbegin_reference"); e = xa.xbegin(L); break;
           case X_JECXZ: r.addend = 0; e = prefixed ? (mode == 64 ? xa.jecxz(x86::ecx, L) : xa.jecxz(x86::cx, L)) : (mode == 64 ? xa.jecxz(x86::rcx, L) : xa.jecxz(x86::ecx, L)); break;
           case X_LOOP: r.addend = 0; e = prefixed ? (mode == 64 ? xa.loop(x86::ecx, L) : xa.loop(x86::cx, L)) : (mode == 64 ? xa.loop(x86::rcx, L) : xa.loop(x86::ecx, L)); break;
           case X_LEA: e = mode == 64 ? xa.lea(x86::rax, x86::ptr(L, int32_t(r.addend))) : xa.lea(x86::eax, x86::ptr(L, int32_t(r.addend))); break;
